@@ -75,7 +75,10 @@ def refused_lines(cfg, c, variant):
     mx = cfg.get("max", 10485760); mn = cfg.get("min", 1)
     v = [["ioption %d %d %d" % (c, OPT["min"], mx + 1)],
          ["ioption %d %d %d" % (c, OPT["max"], mn - 1)] if mn > 1 else ["ioption %d %d %d" % (c, OPT["min"], mx + 4096)],
-         ["ioption %d %d -1" % (c, OPT["min"])]][variant % 3]
+         ["ioption %d %d -1" % (c, OPT["min"])],
+         # checksum types the library does not know (chunk / overall): refused, and the type in force stays what it was
+         ["ioption %d %d 77" % (c, OPT["chunk"])],
+         ["ioption %d %d 4" % (c, OPT["full"]), "clear_error %d" % c, "ioption %d %d 260" % (c, OPT["chunk"])]][variant % 5]
     return v + ["clear_error %d" % c]
 
 
